@@ -263,3 +263,49 @@ subcategory: SE4
 
 TEMPLATES = {'vars1': T_VARS1, 'vars2': T_VARS2, 'letshadow': T_LETSHADOW, 'letshadow2': T_LETSHADOW2, 'dates1': T_DATES1, 'dates2': T_DATES2,
              'fields1': T_FIELDS1, 'fields2': T_FIELDS2, 'funcs1': T_FUNCS1, 'funcs2': T_FUNCS2, 'fail': T_FAIL}
+
+
+# ------------------------------------------------------------------------------------------- generated templates
+GLOBALS_POOL = ['big = amount > 9001', 'small = amount < 9002', 'is_src = source == "@P3"', 'lim = 9003', 'broken = field.nope']
+BLOCKS_POOL = [
+    # (header lines after [Name], uses)
+    ('match: contains("@P1")\ncategory: C{i}', ''),
+    ('match: startswith("@P2") and amount > 9001\ncategory: C{i}\nsubcategory: S{i}', ''),
+    ('match: big\ncategory: C{i}', 'big'),
+    ('match: not big and contains("@P1")\ncategory: C{i}\nsubcategory: S{i}', 'big'),
+    ('match: small or is_src\ncategory: C{i}', 'small is_src'),
+    ('let: lim = 9002\nmatch: amount > lim\ncategory: C{i}', ''),
+    ('match: amount > lim\ncategory: C{i}\nsubcategory: S{i}', 'lim'),
+    ('let: a = amount + 9003\nlet: b = a * 2\nmatch: b > 9001\ncategory: C{i}', ''),
+    ('match: amount > 9003\ntags: t{i}', ''),
+    ('match: contains("@P2")\ntags: u{i}, {{source}}', ''),
+    ('match: field.k == "@P4"\ncategory: C{i}', ''),
+    ('match: "@P1" in description and source != "@P3"\ncategory: C{i}', ''),
+    ('match: anyof("@P1", "@P2")\ncategory: C{i}\nsubcategory: S{i}', ''),
+    ('match: broken == "x"\ncategory: C{i}', 'broken'),
+    ('match: amount > "@P1"\ncategory: C{i}', ''),
+    ('match: exists(field.k) and amount <= 9002\ncategory: C{i}', ''),
+    ('let: w = extract("(A)")\nmatch: w == "A" or amount == 9001\ncategory: C{i}', ''),
+    ('match: 9001 < amount < 9002\ncategory: C{i}\nsubcategory: S{i}', ''),
+]
+
+
+def generated(k, seed, nblocks=(2, 3)):
+    """k rule files composed of 2-3 random blocks plus the global variables they use (and sometimes an unused one)."""
+    import random
+    rng = random.Random(100 + seed)
+    out = {}
+    for j in range(k):
+        n = rng.choice(nblocks)
+        blocks = [rng.choice(BLOCKS_POOL) for _ in range(n)]
+        uses = set(' '.join(b[1] for b in blocks).split())
+        globs = [g for g in GLOBALS_POOL if g.split(' = ')[0] in uses]
+        if rng.random() < 0.3:
+            globs.append(rng.choice(GLOBALS_POOL))
+        globs = list(dict.fromkeys(globs))
+        rng.shuffle(globs)
+        text = '\n'.join(globs) + '\n\n'
+        for i, (body, _) in enumerate(blocks):
+            text += f'[R{i}]\n' + body.format(i=i) + '\n\n'
+        out[f'gen{j:03d}'] = text
+    return out
